@@ -576,6 +576,7 @@ class UnitDatabase(Singleton):
         )
 
         self.categories_to_quantity_types[category] = info
+        self._ClearCaches()
         return info
 
     def IsValidCategory(self, category: str) -> bool:
@@ -804,6 +805,15 @@ class UnitDatabase(Singleton):
             raise RuntimeError("Unit already registered: {} ({})".format(name, unit))
 
         quantity_type_list.append(info)
+        self._ClearCaches()
+
+    def _ClearCaches(self) -> None:
+        """
+        Clears what was cached based on the registered units/categories (must be called whenever
+        a unit or a category is registered).
+        """
+        self.quantities_cache.clear()
+        self._category_unit_valid.clear()
 
     def AddUnitBase(self, quantity_type: str, name: str, unit: str) -> None:
         """
